@@ -509,6 +509,10 @@ class AsyncPettingZooVecEnv(PettingZooVecEnv):
             if i == num_errors - 1:
                 logger.error("Raising the last exception back to the main process.")
                 self._state = AsyncState.DEFAULT
+                if isinstance(value, exctype):
+                    # Re-raise the worker's exception itself: exctype(value) fails for
+                    # exception types whose constructor takes several arguments
+                    raise value
                 raise exctype(value)
 
     def _assert_is_running(self) -> None:
